@@ -228,8 +228,8 @@ class AASToJsonEncoder(json.JSONEncoder):
         :return: dict with the serialized attributes of this object
         """
         data = cls._abstract_classes_to_json(obj)
-        if obj.value:
-            data['value'] = model.datatypes.xsd_repr(obj.value) if obj.value is not None else None
+        if obj.value is not None:
+            data['value'] = model.datatypes.xsd_repr(obj.value)
         if obj.value_id:
             data['valueId'] = obj.value_id
         # Even though kind is optional in the schema, it's better to always serialize it instead of specifying
@@ -248,8 +248,8 @@ class AASToJsonEncoder(json.JSONEncoder):
         :return: dict with the serialized attributes of this object
         """
         data = cls._abstract_classes_to_json(obj)
-        if obj.value:
-            data['value'] = model.datatypes.xsd_repr(obj.value) if obj.value is not None else None
+        if obj.value is not None:
+            data['value'] = model.datatypes.xsd_repr(obj.value)
         if obj.refers_to:
             data['refersTo'] = list(obj.refers_to)
         if obj.value_type:
